@@ -74,6 +74,7 @@ type world struct {
 	ahtDirty bool // a precommit attempt was made after a Discard that removed something (non-embedded store): the
 	// AHT then keeps physical leftovers (digest log is never truncated) that the list-of-leaves AHT of the model
 	// does not represent; random scripts do not reopen the store from then on (directed scripts do)
+	transient int // read errors that disappeared on retry
 	blzero   int  // committed txs with BlTxID = 0 and a non-zero BlRoot (stale pooled tx holder)
 	keysLive map[string]bool // committed keys whose last write is not a tombstone / never tombstoned
 	keysUsed map[string]bool // keys ever submitted in any commit attempt
@@ -178,7 +179,24 @@ func (w *world) close() {
 
 // ---- reading the history ------------------------------------------------------------------------
 
+// readTx re-reads a committed transaction. A read error is retried a few times before it counts:
+// multiapp.appendableFor can return cache.ErrKeyNotFound ("key not found") when the chunk it has just
+// opened is evicted from the LRU of opened chunk files by a concurrent reader (the indexer) before the
+// final lookup -- a transient read failure (small FileSize, many chunks), not a change of the history.
 func (w *world) readTx(id uint64) (rec *txRecord, err error) {
+	for attempt := 0; attempt < 5; attempt++ {
+		rec, err = w.readTxOnce(id)
+		if err == nil {
+			return rec, nil
+		}
+		w.transient++
+		time.Sleep(200 * time.Microsecond)
+	}
+	w.transient -= 5
+	return rec, err
+}
+
+func (w *world) readTxOnce(id uint64) (rec *txRecord, err error) {
 	defer func() {
 		if r := recover(); r != nil {
 			rec, err = nil, fmt.Errorf("PANIC inside the store while reading tx %d: %v", id, r)
